@@ -68,8 +68,29 @@ class LoggingEvaluator(PythonEvaluator):
         self._vp_log(['exit', state.name])
         return super().execute_on_exit(state)
 
+    def _vp_vals(self, src):
+        out = {}
+        for k in ('x', 'y', 'seen', 'last'):
+            try:
+                v = src[k] if isinstance(src, dict) else getattr(src, k)
+                out[k] = enc_val(v)
+            except (KeyError, AttributeError):
+                out[k] = 'missing'
+            except Unsupported:
+                out[k] = 'unsupported'
+        return out
+
+    def _vp_old(self, entry):
+        """a channel of its own (never compared with the model): what the variables were when the
+        interpreter asked for the preconditions of an object, and what `__old__` showed later"""
+        w, slot = _REGISTRY[self._vp_token]
+        if w is not None and slot == w.top:
+            w.oldlog.append(entry)
+
     def _vp_conds(self, kind, obj, event, it):
         oid = ['t', self._vp_tid(obj)] if isinstance(obj, Transition) else ['s', obj.name]
+        if kind == 'pre':
+            self._vp_old(['snap', oid, self._vp_vals(self.context)])
         # `it` yields the unsatisfied conditions lazily; each evaluation goes through
         # `_evaluate_code`, where it is logged with the owner recorded here.
         self._vp_cur = [kind, oid, enc_event(event), 0]
@@ -92,6 +113,9 @@ class LoggingEvaluator(PythonEvaluator):
             return super()._evaluate_code(code, additional_context=additional_context)
         kind, oid, ev, idx = cur
         cur[3] = idx + 1
+        if kind != 'pre' and isinstance(code, str) and '__old__' in code:
+            old = additional_context.get('__old__')
+            self._vp_old(['old', kind, oid, idx, None if old is None else self._vp_vals(old)])
         try:
             r = super()._evaluate_code(code, additional_context=additional_context)
         except Exception:
@@ -160,6 +184,7 @@ class ImplWorld:
         self.listener_spec = []
         self.callbacks = []
         self.log = Log()
+        self.oldlog = []
         self.unsupported = False
         self.meta_loggers = {}
 
@@ -289,6 +314,7 @@ class ImplWorld:
         self._set_clock(it, clock)
         self.top = i
         del self.log[:]
+        del self.oldlog[:]
         try:
             ms = it.execute_once()
         except Exception as e:      # noqa
@@ -300,6 +326,8 @@ class ImplWorld:
     def op_exec(self, i, clock):
         r, eff = self._exec_once(i, clock)
         r['eff'] = eff
+        if self.oldlog:
+            r['oldchk'] = list(self.oldlog)
         return r
 
     def op_execute(self, i, clock, max_steps):
